@@ -110,16 +110,28 @@ pub fn f_eth_h(e: &Ethernet2Header) -> Vec<i64> {
     f.push(e.ether_type.0 as i64);
     f
 }
+/// meaning of the protocol type field (mirrors Wire!SllProtoKind)
+pub fn sll_proto_kind(p: LinuxSllProtocolType) -> i64 {
+    match p {
+        LinuxSllProtocolType::Ignored(_) => 0,
+        LinuxSllProtocolType::NetlinkProtocolType(_) => 1,
+        LinuxSllProtocolType::GenericRoutingEncapsulationProtocolType(_) => 2,
+        LinuxSllProtocolType::EtherType(_) => 3,
+        LinuxSllProtocolType::LinuxNonstandardEtherType(_) => 4,
+    }
+}
 pub fn f_sll(s: &LinuxSllSlice) -> Vec<i64> {
     let mut f = vec![u16::from(s.packet_type()) as i64, u16::from(s.arp_hardware_type()) as i64, s.sender_address_valid_length() as i64];
     f.extend(bytes_v(&s.sender_address_full()));
     f.push(u16::from(s.protocol_type()) as i64);
+    f.push(sll_proto_kind(s.protocol_type()));
     f
 }
 pub fn f_sll_h(s: &LinuxSllHeader) -> Vec<i64> {
     let mut f = vec![u16::from(s.packet_type) as i64, u16::from(s.arp_hrd_type) as i64, s.sender_address_valid_length as i64];
     f.extend(bytes_v(&s.sender_address));
     f.push(u16::from(s.protocol_type) as i64);
+    f.push(sll_proto_kind(s.protocol_type));
     f
 }
 pub fn f_vlan(v: &SingleVlanSlice) -> Vec<i64> {
